@@ -23,6 +23,8 @@ def c01_random(ctx, n_core, n_ext):
                     else:
                         ann["redirect-from"] = "old-%s" % sorted(hosts)[0]
         hs.append(h)
+    # tcp services sharing a port between a host-less ingress and SNI hostnames
+    hs += [U.random_tcp_history(rng, "rt-%d" % i, steps=4 + rng.randrange(3)) for i in range(max(60, n_ext // 4))]
     return hs
 
 
